@@ -10,10 +10,11 @@ func init() {
 		ID:    "C10",
 		Title: "CDCN round trip: parsing formatted output reproduces value and text",
 		Rule: "A recursive value generator over the canonical universe (float64 magnitude classes incl. 1-3 digit exponents, subnormals, -0.0; 64-bit integer boundaries; rune classes incl. control, quote, backslash, astral, non-printable; strings with every escape class and invalid UTF-8; the seven kinds, sizes 0..40, nesting 0..7, Queues <= 16) builds any-typed collections; " +
-			"each is formatted, parsed, compared as a canonical tree (kind tags from the public interfaces, leaves bit-exact, Maps as key->value sets) and formatted again (exact text fix-point, or multiset of lines when a multi-entry Map occurs). Every corner leaf is additionally placed alone in each kind and as key and value. Narrow numeric widths: text fix-point only. " +
-			"Totality: rings of self-containing collections (length 1..3, six kinds, 0/1/3 siblings) and acyclic nests of depth 12 must format (FormatValue and String()) with the elision marker; purity: random sequences of successful and failing FormatValue calls on one notation/formatter against a fresh notation. " +
+			"each is formatted, parsed, compared as a canonical tree (kind tags from the public interfaces, leaves bit-exact, Maps as key->value sets) and formatted again (exact text fix-point, or multiset of lines when a multi-entry Map occurs). Every corner leaf is additionally placed alone in each kind and as key and value. Narrow numeric widths and collections whose element type is not `any` (five sequence kinds x twelve element types, Catalog/Map x four key/value pairings; the formatter recognises them by another route): the parsed tree must equal the tree of the collection of `any` built from the same values widened to int64/uint64/float64/complex128 (exact numeric values), and String() must give the same text. " +
+			"Totality: rings of self-containing collections (length 1..3, six kinds, 0/1/3 siblings) and acyclic nests of depth 12 must format (FormatValue and String()) with the elision marker; purity: random sequences of successful and failing FormatValue calls and of rejected ParseSource calls on one notation/formatter against a fresh notation, with the round trip repeated on that much-used notation. " +
 			"distinct_nontrivial = distinct canonical trees / call histories.",
 		Assumptions: []string{
+			"'compares equal' is decided structurally as the statement spells it out (kinds, order, pairing, exact values), not by CompareValues, whose behaviour for operands of different static element types is outside C07/C08",
 			"NaN and infinities are outside the universe (finite floats and complex numbers)",
 			"invalid code points are not used as runes",
 			"Queues stay within their default capacity (larger ones are C05's)",
@@ -22,6 +23,7 @@ func init() {
 			{Name: "roundtrip/generated", Count: core.FixedCount(60000, 1500000), Run: func(c *core.Ctx, idx int) { cdcnmon.RunC10Values(c) }, BlockIsViolation: true},
 			{Name: "roundtrip/leaf-corners", Count: core.FixedCount(cdcnmon.C10LeafCases(), cdcnmon.C10LeafCases()), Run: cdcnmon.RunC10Leaves, BlockIsViolation: true},
 			{Name: "roundtrip/narrow-widths", Count: core.FixedCount(5000, 100000), Run: func(c *core.Ctx, idx int) { cdcnmon.RunC10Narrow(c) }, BlockIsViolation: true},
+			{Name: "roundtrip/typed-collections", Count: core.FixedCount(12000, 300000), Run: func(c *core.Ctx, idx int) { cdcnmon.RunC10Typed(c) }, BlockIsViolation: true},
 			{Name: "totality/cyclic-and-deep", Count: core.FixedCount(cdcnmon.C10TotalityCases(), cdcnmon.C10TotalityCases()), Run: cdcnmon.RunC10Totality},
 			{Name: "totality/elision-model", Count: core.FixedCount(15000, 300000), Run: func(c *core.Ctx, idx int) { cdcnmon.RunC10Elision(c) }},
 			{Name: "purity/call-sequences", Count: core.FixedCount(6000, 150000), Run: func(c *core.Ctx, idx int) { cdcnmon.RunC10Purity(c) }},
